@@ -1,48 +1,83 @@
 PROP = dict(
-    drivers=['Term', 'FontLoad', 'Rect'],
-    gens=['loops', 'fontpal', 'crc', 'palette'],
-    lake=['IcyVerif.Props.C03'],
+    drivers=['Term', 'FontLoad', 'Rect', 'LoaderCost'],
+    gens=['loops', 'fontpal', 'crc', 'palette', 'xb', 'loaders', 'loaderloops', 'termresize', 'sixel'],
+    lake=['IcyVerif.Props.C03', 'IcyVerif.Props.C03Loaders', 'IcyVerif.Props.C03Sixel'],
     ns='IcyVerif.C03',
     theorems=['all_loops_known', 'loop_inventory_complete', 'parse_number_bounded', 'rep_count_le', 'tab_count_le',
               'ich_count_le', 'il_count_le', 'scroll_count_le', 'scroll_lr_count_le', 'up_scroll_count_le',
               'dch_count_le', 'dl_count_le', 'pushRepeated_len', 'pushRepeated_chars', 'replay_budget', 'macro_expansion_bounded', 'stream_steps_bounded',
               'font_zero_guard_present', 'font_loader_cost', 'font_loop_diverges_without_guard', 'palette_colours_le_bytes', 'rqcra_count_le', 'rect_count_le',
-              'rect_param_bounded'],
+              'rect_param_bounded', 'resize_clamps_from_source', 'term_size_bounded', 'repeat_counts_absolute', 'resize_clamps_attained',
+              'loader_loops_known', 'loader_loop_inventory_complete', 'loader_guards_present', 'loader_cost_refines_c02',
+              'xb_loader_cost', 'bin_loader_cost', 'adf_loader_cost', 'idf_loader_cost', 'tnd_loader_cost', 'tdf_loader_cost',
+              'icy_guard_present', 'icy_layer_cost_partial', 'icy_rows_unbounded_without_guard', 'loader_cost',
+              'sixel_limits_from_source', 'sixel_state_bounded', 'sixel_never_huge', 'sixel_picture_bounded', 'sixel_cost'],
     harness='c03',
     harness_timeout=2400,
     design='DESIGN.md §4 C03',
     level_text='partial: Lean 4 theorems bound every parameter-driven loop count of the ANSI parser model by the screen '
-               'size for all parameter values, and a regenerated loop inventory of the source must be covered by the '
-               'table the theorems are about; wall-clock time, memory and stack are outside any model and are measured '
-               'on the real code by the oracle run (per-token time and row growth, address-space cap, crash-isolated '
-               'workers); bitmap-font loaders (also behind the custom-font DCS) and the rectangle-area commands have loop-count '
-               'theorems of their own; the palette importers yield at most one colour per byte (theorem) - their time is oracle-only, as are sixel headers and binary art-file headers',
-    technique='Lean 4 proof of clamp bounds over the TermGeo model + translator-regenerated loop inventory (decide; covers the '
-              'terminal-stream code, src/fonts.rs and src/palette_handling.rs; for a loop bounded by a RAW parameter the text of the '
-              'rejecting guard is part of the fingerprint) + differential correspondence of the state after each extreme-parameter '
-              'command + timing/memory oracle. Font loaders: cost counters in Model/FontLoad (glyph-loop and checksum-loop '
-              'iterations) bounded by the file length for all byte strings, proved from the regenerated flag glyphZeroGuard; '
-              'rectangle commands: loop counts as functions of the parameters and the screen (Model/RectCost) bounded by the screen '
-              'for all parameter lists, tied by the CRC answer of DECRQCRA on a uniformly filled screen and by the number of cells '
-              'DECFRA/DECERA/DECSERA change',
+               'size for all parameter values - and the screen itself by the resize command\'s own clamps along EVERY stream '
+               '(term_size_bounded), so the bounds are absolute; regenerated loop inventories of the source (terminal code, fonts, '
+               'palettes, binary loaders, sixel decoder) must be covered by the tables the theorems are about. Binary art-file loaders '
+               '(XBin raw + compressed, BIN, ADF, IDF, Tundra, TheDraw fonts, IcyDraw LAYER chunks) have cost-instrumented models - loop '
+               'iterations, rows allocated by Layer::set_char, bytes copied - that provably forget to the C02 loader models and whose '
+               'counters are bounded by explicit polynomials in the file length for ALL byte strings and on every outcome; the sixel '
+               'decoder (size-limited since two repairs) has a state bound, a picture bound, unreachability of the out-of-range outcome and a '
+               'bound on the repeat loop for all payloads. Wall-clock time, allocator behaviour and stack are outside any model and are '
+               'measured on the real code by the oracle (per-token / per-file time, cells and picture bytes allocated, address-space cap, '
+               'crash-isolated workers). PARTIAL: the number of CELLS a loader allocates is rows x a DECLARED width (IcyDraw layer width, '
+               'SAUCE width <= 1000): three recorded findings',
+    technique='Lean 4 proof of clamp bounds over the TermGeo model + translator-regenerated loop inventories (decide; the '
+              'terminal-stream code, src/fonts.rs, src/palette_handling.rs, and - Gen/LoaderLoops - the loading side of every binary format, '
+              'tdf_font, sixel_mod, Layer::set_char; for a loop bounded by a RAW parameter the text of the rejecting guard is part of the '
+              'fingerprint) + differential correspondence of the state after each extreme-parameter command + timing/memory oracle. Resize: the '
+              'clamps of CSI 8;rows;cols t are regenerated (Gen/TermResize; the translator fails when a clamp loses a limit), attained by the '
+              'model (resize_clamps_attained, decide) and invariant along every stream (term_size_bounded, from C01\'s run_good). '
+              'Font loaders: cost counters in Model/FontLoad bounded by the file length for all byte strings, proved from the regenerated '
+              'flag glyphZeroGuard; rectangle commands: loop counts as functions of the parameters and the screen (Model/RectCost). '
+              'Loader cost: Model/LoaderCost re-runs every loop of the C02 loader models in a cost monad RC (result x work x rows x extra, '
+              'counters kept on ok / err / panic outcomes); _res theorems (simp) prove that forgetting the counters gives back the C02 model; '
+              'budgets are proved potential-style (Pot: spent + potential of the continuation <= budget, one bind rule with frame), induction '
+              'over run counters / fuel, omega; nonlinear facts (rows x width <= bytes + width) via a linear cell index and one multiplication '
+              'lemma. The IcyDraw budgets are proved FROM the regenerated flag icyNoColumnsGuard (without it the row loop provably runs once per '
+              'declared row). Sixel: C14\'s Model/Sixel follows the two size-limit repairs; invariant Small (<= MAX rows of <= 4 MAX bytes, '
+              '<= MAXC palette entries) preserved by every step, Out.huge unreachable, repeat loop <= MAX per character. Tie: cells allocated '
+              '(sum of row lengths) and rows of the real loaders / picture size of the real decoder equal the model\'s for every generated file '
+              '(driver loadercost), constants + guard texts regenerated',
     rule='cases: the control-function table (64 CSI finals x 8 intermediates x 0..6 parameters from {0, 1, h, w, 2^16, '
          '10^6, 2^31-1}; all pairs in thorough, sampled in quick) after 5 state prefixes (scrollback, margins, '
-         'left/right margins, insert mode) on 4 screen sizes, recursive / mutually recursive / fan-out macros, hex repeat '
-         'groups, Avatar repeats, sixel raster/repeat headers, custom-font payloads, binary headers with extreme sizes; font '
+         'left/right margins, insert mode) on 4 screen sizes; a text-area resize CSI 8;rows;cols t with rows, cols from {0,1,25,60,61,132,133,'
+         '65536,2^31-1} FOLLOWED BY each of 16 repeat-style commands with an extreme count (also inside a macro); recursive / mutually '
+         'recursive / fan-out macros, hex repeat groups, Avatar repeats; sixel payloads: raster attributes, repeat counts (before data and '
+         'before every control character), colour registers and cursor positions from {0,1,6,100,4095,4096,4097,65536,10^6,2147483599,'
+         '2^31-1,10^11}, the largest legal picture, structured random payloads of <= 64 bytes; custom-font payloads; font '
          'loaders: PSF1 heights {0,1,2,16,255} x modes x data of 0..256 KiB, PSF2 size fields at 14 extremes with 0/64/4096 data '
-         'bytes, large consistent PSF2 files, raw fonts up to 1 MiB, the DCS route; palettes: 24 number spellings in count lines and '
-         'channels of all 5 formats, 100 KB lines, thousands of lines; rectangle commands DECRQCRA/DECFRA/DECERA/DECSERA: every '
-         'combination of top/left/bottom/right from {0,1,size,size+1,65536,10^6,2147483599} (full product on 80x25, sampled on 7x4, '
-         '132x60 and 80x25 with scrollback), wrong parameter counts, non-character fill codes, tab report after w+5 tab stops; '
-         'evaluations = sequences run; distinct_nontrivial = distinct sequences',
+         'bytes, PSF2 headers with ZERO bytes per glyph and declared glyph counts up to 2^32-1 (file and DCS route; oracle: the glyph count '
+         'of an accepted font is backed by the file), large consistent PSF2 files, raw fonts up to 1 MiB; palettes: 24 number spellings '
+         'in count lines and channels of all 5 formats, 100 KB lines, thousands of lines; rectangle commands: every combination of '
+         'top/left/bottom/right from {0,1,size,size+1,65536,10^6,2147483599}; binary files: XBin widths {1,2,79,80,4095,4096} x heights '
+         '{0,1,25,65535} x all four run types x counts {1,2,32,63,64} x truncations, 20000 Full runs, BIN / ADF bodies of 0..100001 bytes '
+         'with 7 SAUCE shapes, IDF start rows / right edges at 16-bit extremes x RLE counts {0,1,80,65535}, Tundra position records to rows '
+         '{0..65535, 3*10^6, 2^31-1, 2^31, 2^32-1} x columns, thousands of colour records, SAUCE widths; IcyDraw LAYER chunks with 12 '
+         'declared sizes (0 x 2^31-1, 2^31 x 2^31-1, 10^6 x 10^6 ...) x 5 cell shapes x continuation chunks; TheDraw bundles whose 94 glyphs '
+         'share one long glyph; random tails behind every magic; evaluations = sequences / files run; distinct_nontrivial = distinct inputs',
     modelled='loop counts of REP, CVT/CBT, ICH, DCH, IL, DL, SU/SD, SL/SR, cursor-up scrolling; number parsing; hex macro '
-             'repeat expansion; macro replay depth/budget; BitFont::from_bytes (PSF1/PSF2/raw, glyphs_from_u8_data, '
-             'calculate_checksum loop bound) with iteration counters; DECRQCRA guard and loop counts, get_rect_area clamps and the '
-             'DECFRA/DECERA/DECSERA loop counts; number of colours a palette importer produces (Model/PalLoad)',
-    not_modelled='time, memory, stack (oracle only); sixel decode, binary art-file loaders (oracle only); the regex engine behind the '
-                 'palette importers (its loops are the crate\'s; the model bounds the number of colours, the oracle measures time); the tab-stop report DECTABSR CSI 2 $ w (loop over the tab stops '
-                 'present: inventory + timing only)',
+             'repeat expansion; macro replay depth/budget; the text-area resize clamps and the terminal size along every stream; '
+             'BitFont::from_bytes (PSF1/PSF2/raw, glyphs_from_u8_data, calculate_checksum loop bound) with iteration counters; DECRQCRA '
+             'guard and loop counts, get_rect_area clamps and the DECFRA/DECERA/DECSERA loop counts; number of colours a palette importer '
+             'produces (Model/PalLoad); every loop of the XBin (raw, compressed), BIN, ADF, IDF, Tundra, TheDraw and IcyDraw LAYER / LAYER~k '
+             'loaders with counters for iterations, rows allocated by Layer::set_char and bytes copied (Model/LoaderCost, incl. the '
+             'Buffer::from_bytes dispatch); the sixel decoder\'s allocation sizes, size guards and repeat loop (Model/Sixel + Lemmas/SixelCost)',
+    not_modelled='time, memory, stack (oracle only); cells allocated = rows x declared width where the width is declared by the file '
+                 '(IcyDraw layer width up to 2^31-1: finding file:icy:runaway; SAUCE width up to 1000 x 65535 rows: findings '
+                 'file:tnd:slow-or-huge, file:ans:slow-or-huge); text-format files on non-terminal buffers (ANSI, PCBoard, Avatar ... through '
+                 'parse_with_parser: oracle only - the cursor-row cap MAX_FILE_BUFFER_HEIGHT is regenerated, not modelled); the PNG / zlib / '
+                 'base64 layer of .icy; the regex engine behind the palette importers; the tab-stop report DECTABSR (inventory + timing only); '
+                 'per-call cost of parse_sixel_data beyond "at most 6 pixels and the rows it appends" (the state bound covers memory)',
     assumptions=['thresholds of the oracle: a token, loader case or rectangle command slower than 3000 ms (debug build, thread CPU time), a token adding more than one screenful '
-                 '+ its own length of rows, a loader allocating more than 8M cells, or a worker killed by the 6 GB '
-                 'address-space cap / 20 s without progress counts as a violation'],
+                 '+ its own length of rows, a loader allocating more than 8M cells, a sixel picture of more than 4 x MAX_SIXEL_SIZE^2 bytes, an '
+                 'accepted font declaring more glyphs than max(512, file length), or a worker killed by the 6 GB '
+                 'address-space cap / 20 s (8 s for loader, rectangle and resize cases) without progress counts as a violation',
+                 'usize offsets of the loader models are unbounded naturals (files far below 2^64 bytes); the Tundra palette search is counted at its '
+                 'worst case (no colour repeated)'],
 )
